@@ -533,6 +533,34 @@ def gen_capture_matrix(pid0):
     return progs
 
 
+def gen_joiner_capture_matrix(pid0):
+    """custom_joiner x {eager, lazy branches} x block captures: every branch of every step carries a capture (behind ordinary
+    probes of an earlier branch), with and without `let` names that the later captures read. With lazy branches the
+    joiner receives closures, but a block operand is still evaluated before the step, not when the joiner calls the branch."""
+    progs = []
+    pid = pid0
+    for joiner in ("Lazy", "Stamp"):
+        for n in (2, 3):
+            for named in (False, True):
+                p = Prog(pid)
+                p.joiner = joiner
+                p.tags = ["joiner", "rand", "cap", "joincap"] + (["names"] if named else [])
+                for bi in range(n):
+                    s0 = [Act("Src", p.nid()), Act("Map", p.nid()), Act("Map", p.nid(), cap=p.nid())]
+                    a1 = Act("Map", p.nid(), cap=p.nid())
+                    a2 = Act("Then", p.nid(), cap=p.nid())
+                    if named:
+                        a1.snaps = [(p.nid(), b) for b in range(n)]
+                        a2.snaps = [(p.nid(), (bi + 1) % n)]
+                    steps = [s0, [a1, Act("Map", p.nid()), a2]]
+                    if bi == n - 1 and n == 3:
+                        steps = steps[:1]        # unequal depths: the last branch ends after step 0
+                    p.branches.append({"named": named, "mut": False, "steps": steps})
+                progs.append((p, True))
+                pid += 1
+    return progs
+
+
 def gen_names_matrix(pid0, tier, rng):
     """C12, systematic: for small depth profiles (equal and unequal depths) every assignment of {unnamed, `let`, `let mut`}
     to the branches (not all unnamed); every action of every later step carries a capture that reads every name."""
@@ -622,6 +650,8 @@ def build_corpus(tier, seed):
         pid += 1
     cm = gen_capture_matrix(pid)
     progs += cm
+    pid = max(p.id for p, _ in progs) + 1
+    progs += gen_joiner_capture_matrix(pid)
     pid = max(p.id for p, _ in progs) + 1
     progs += gen_names_matrix(pid, tier, rng)
     return progs
